@@ -8,7 +8,7 @@ It reaches the multi-state, multi-dimensional, unequal-mass region no built-in c
 """
 import numpy as np
 
-from mudslide.models.electronics import DiabaticModel_
+from mudslide.models.electronics import DiabaticModel_, AdiabaticModel_
 
 
 class SynthModel(DiabaticModel_):
@@ -141,3 +141,45 @@ def random_rho(rng, N, kind):
 def random_hermitian(rng, N, scale=1.0):
     a = rng.normal(size=(N, N)) + 1j * rng.normal(size=(N, N))
     return scale * 0.5 * (a + a.conj().T)
+
+
+class BlocksModel(AdiabaticModel_):
+    """a user-defined model on AdiabaticModel_ (an auxiliary problem truncated to a few states, like the built-in Shin-Metiu
+    model): four basis functions in two symmetry blocks (a, a*) and (b, b*) that do not couple to each other,
+
+        <a|H|a> = k/2 |r|^2 + g x^3,  <a*|H|a*> = <a|H|a> + D,  <a|H|a*> = t    and the same with -g for block b.
+
+    The two lowest eigenstates (one per block) cross at x = 0 (symmetry-allowed, twice differentiable surfaces); eigh of the
+    block-diagonal matrix returns eigenvectors with EXACT zeros, so the state continued through the crossing has overlap
+    exactly 0.0 with the reference state of the same index."""
+
+    def __init__(self, ndim=1, mass=2000.0, k=0.01, g=0.004, D=0.2, t=0.03, representation="adiabatic", reference=None):
+        AdiabaticModel_.__init__(self, representation=representation, reference=reference, nstates=2, ndim=ndim)
+        self.mass = np.array(mass, dtype=np.float64).reshape(-1) * np.ones(ndim)
+        self.k, self.g, self.D, self.t = k, g, D, t
+
+    def V(self, X):
+        X = np.asarray(X, dtype=np.float64)
+        harm = 0.5 * self.k * float(np.dot(X, X))
+        cub = self.g * X[0] ** 3
+        out = np.zeros([4, 4], dtype=np.float64)
+        out[0, 0] = harm + cub
+        out[1, 1] = harm + cub + self.D
+        out[2, 2] = harm - cub
+        out[3, 3] = harm - cub + self.D
+        out[0, 1] = out[1, 0] = self.t
+        out[2, 3] = out[3, 2] = self.t
+        return out
+
+    def dV(self, X):
+        X = np.asarray(X, dtype=np.float64)
+        out = np.zeros([self.ndim(), 4, 4], dtype=np.float64)
+        for d in range(self.ndim()):
+            for i in range(4):
+                out[d, i, i] = self.k * X[d]
+        dcub = 3.0 * self.g * X[0] ** 2
+        out[0, 0, 0] += dcub
+        out[0, 1, 1] += dcub
+        out[0, 2, 2] -= dcub
+        out[0, 3, 3] -= dcub
+        return out
